@@ -75,6 +75,12 @@ def run_slotmap(ctx, binary):
         ctx.tlc_mc("odb", "SlotMap", consts=dict(fixes, NSlots=2, Files="{1, 2, 3}", AllowOverflow="TRUE"), workers=4, timeout=1200, coverage=False)
     else:
         ctx.tlc_mc("odb", "SlotMap", consts=dict(fixes, NSlots=3, Files="{1, 2, 3, 4}", AllowOverflow="TRUE"), workers=8, timeout=3000, coverage=False, xmx="12g")
+    if ctx.thorough:
+        # self-tests: the seeded change (no new generation on slot reuse) and the allocation as it was found must violate the model's properties
+        ctx.tlc_mc("odb", "SlotMap", consts=dict(fixes, NSlots=2, Files="{1, 2, 3}", AllowOverflow="TRUE", Bug_NoGenBump="TRUE"), workers=4,
+                   timeout=1200, coverage=False, expect_violation="EverySlotLoadable")
+        ctx.tlc_mc("odb", "SlotMap", consts={"Fix_KeepLive": "FALSE", "Fix_Precount": "FALSE", "NSlots": 2, "Files": "{1, 2, 3}", "AllowOverflow": "TRUE"},
+                   workers=1, timeout=1200, coverage=False, expect_violation="EveryFileHasItsSlot")
     pool, probe = pack_pool(ctx)
     hist = ctx.tlc_gen("odb", "SlotMap_Gen", consts=dict(fixes, MaxSteps=24), workers=1, sim="num=%d" % (int(os.environ.get("VERIF_C12_NSIM", "150")) if not ctx.thorough else 2000), timeout=900)
     for c in hist:
